@@ -4,13 +4,19 @@ go 1.26.8
 
 require (
 	github.com/anishathalye/porcupine v1.3.0
+	github.com/fatih/color v1.13.0
 	github.com/jig/lisp v0.0.0
 )
 
 require (
+	github.com/chzyer/readline v1.5.1 // indirect
 	github.com/davecgh/go-spew v1.1.1 // indirect
+	github.com/eiannone/keyboard v0.0.0-20220611211555-0d226195f203 // indirect
 	github.com/google/uuid v1.3.0 // indirect
 	github.com/jig/scanner v1.2.0 // indirect
+	github.com/mattn/go-colorable v0.1.13 // indirect
+	github.com/mattn/go-isatty v0.0.16 // indirect
+	golang.org/x/sys v0.0.0-20220825204002-c680a09ffe64 // indirect
 )
 
 replace github.com/jig/lisp => /repo
